@@ -31,7 +31,7 @@ func (cc *compCase) nextSite() int { cc.site++; return cc.site }
 // placeholders at the top level of the file
 func genComponentFile(c *core.Ctx, idx int) (compDef, []model.Stmt) {
 	r := c.Rng
-	def := compDef{name: []string{"components/card", "components/box", "ui/panel"}[idx%3]}
+	def := compDef{name: []string{"components/card", "components/box.v2", "ui/panel", "components/list.min"}[idx%4]}
 	nArgs := r.Intn(3)
 	for a := 0; a < nArgs; a++ {
 		def.args = append(def.args, fmt.Sprintf("p%d", a))
@@ -172,7 +172,7 @@ func genComponentTree(c *core.Ctx, i int) *compCase {
 				stmts = append(stmts, cc.genUse(c, def, "", false), model.Text{S: []string{"|", "\n", " ", "|"}[r.Intn(4)]})
 			}
 		}
-		stmts = append(stmts, model.Text{S: " after:"}, model.Print{E: model.Var{Name: "ds"}})
+		stmts = append(stmts, model.Text{S: " after:"}, model.Print{E: model.Var{Name: "ds"}}, model.Text{S: "/"}, model.Print{E: model.Var{Name: "p0"}}, model.Text{S: "/"}, model.Print{E: model.Var{Name: "p1"}})
 		if r.Intn(6) == 0 {
 			stmts = append(stmts, model.Print{E: model.Var{Name: "clocal"}}) // never visible out here
 		}
